@@ -3,6 +3,7 @@ LC_HEADER = ('From LC Require Import Lib.Bytes Model.MountInfo Model.FsTree Mode
 PROP = dict(
     go='c08', n_quick=200, n_thorough=2000,
     coq_header=LC_HEADER,
+    referee='cdom', referee_quick=3, referee_thorough=40,
     case_type='LC.case', verdict='C08.verdict',
     rule='probe (status/list), mkdirs, mount on forests with missing directories, partial / foreign / wrong-source mounts, export links right/wrong/non-symlink, host layouts plain/stacked/separate fs/bind-mounted base; non-trivial: some layer not plainly mountable',
     explanation='per step Coq evaluates: model step = observed step (result class, operation log, file tree, kernel table, '
